@@ -85,7 +85,8 @@ def _gen(seed: int, i: int, tier: str) -> dict:
         elif r < 0.8:
             ops.append(["line", f"{rng.choice([1, 2, 3, 8, 101, 200, 254])};255;0;0;17;{proto}\n"])
         elif r < 0.9:
-            ops.append(["presented_last"])
+            # the node that was just given an id presents itself - now and then with a garbled library version
+            ops.append(["presented_last", rng.choice([None, None, None, "", "2", "beta", "2.x"])])
         else:
             ops.append(["relisten"])
     lat = [rng.choice([0, 1, 3]) for _ in range(rng.randint(0, 10))]
@@ -150,7 +151,8 @@ def run(scn):
     for op in ops:
         if op[0] == "presented_last":
             guess_id = min(254, guess + 1)
-            expanded.append(["line", f"{guess_id};255;0;0;17;{scn['proto']}\n"])
+            ver = op[1] if len(op) > 1 and op[1] is not None else scn["proto"]
+            expanded.append(["line", f"{guess_id};255;0;0;17;{ver}\n"])
         else:
             expanded.append(op)
             if op[0] == "line" and ";3;" in op[1] and op[1].split(";")[4] == "3":
